@@ -216,6 +216,11 @@ func (u *Unit) exec(st *State, fr *Frame, b *ssa.BasicBlock, i int, pred *ssa.Ba
 		if u.expired() {
 			return
 		}
+		if u.deadPath {
+			u.deadPath = false
+			u.paths++
+			return
+		}
 		in := b.Instrs[i]
 		switch x := in.(type) {
 		case *ssa.Jump:
@@ -282,6 +287,11 @@ func (u *Unit) exec(st *State, fr *Frame, b *ssa.BasicBlock, i int, pred *ssa.Ba
 			return
 		default:
 			if !u.step(st, fr, in, pred) {
+				return
+			}
+			if u.deadPath {
+				u.deadPath = false
+				u.paths++
 				return
 			}
 		}
